@@ -49,6 +49,12 @@ def gen(rng, tier):
         if rng.random() < 0.07 and "bs(" not in fml and "poly(" not in fml:
             fml += rng.choice([" + (1 | uid)", " + (x | uid)", " + (0 + x | uid)"])
             kind = kind + "/observation-level-group"
+        extra_ = None
+        if kind == "with-missing" and rng.random() < 0.3:
+            # a call argument taken from the caller's namespace; one variant NAMES the row index like it: the row
+            # labels are not a variable of the data, whatever they are called
+            fml += " + I(x * kk)"
+            extra_ = {"kk": 2}
         long_ = None
         if len(cases) % 50 == 7:
             # eight cases in a quick run also carry a long-frame check (see _long_oracle)
@@ -61,7 +67,7 @@ def gen(rng, tier):
             kind = "no-column-used"
         cases.append({"formula": fml, "frame": fr, "na": rng.choice(["drop", "drop", "error"]) if fml == "1" else "drop",
                       "perm": perm, "index": idx_kind, "colperm": colperm, "kind": kind + ("/long-frame" if long_ else ""),
-                      **({"long": long_} if long_ else {})})
+                      **({"long": long_} if long_ else {}), **({"extra": extra_} if extra_ else {})})
     return cases
 
 
@@ -81,6 +87,9 @@ def _variants(c):
            "perm": [(i * 7 + 3) % n if n % 7 else (i * 5 + 3) % n for i in range(n)],
            "str": [f"r{(n - i) % 7}" for i in range(n)], "rev": list(range(n, 0, -1))}[k]
     out.append((f"index {k}", dict(fr, index=idx), list(range(n))))
+    if c.get("extra"):
+        out.append(("index named like a variable of the caller's namespace", dict(fr, index=idx, index_name="kk"),
+                    list(range(n))))
     out.append(("shuffled columns", {"columns": [fr["columns"][j] for j in c["colperm"]]}, list(range(n))))
     used = [col for col in fr["columns"] if col["name"] not in ("junk",)]
     out.append(("unused column removed", {"columns": used}, list(range(n))))
